@@ -251,7 +251,7 @@ def validate_recording(ctx, prop, rec, label):
         evs = [e for k in pending for e in hists[k]]
         res = run_trace_spec(ctx, prop, evs, rec["config"], label, strict, proj)
         # F4 observations (C17 only): report with the narrow signature, keep validating
-        for i in res["f4"]:
+        for i in (res["f4"] if prop == "C17" else []):
             k, off = _locate(hists, pending, i)
             if k is not None and verdict.get(k) != "f4":
                 verdict[k] = "f4"
@@ -260,9 +260,12 @@ def validate_recording(ctx, prop, rec, label):
                     continue                      # one artefact (the first, i.e. the targeted history) is enough
                 ev = hists[k][off]
                 rp = artefact(k, off, "leader group emptied by the exit of the only active validator (F4)")
-                ctx.report(F4_SIGNATURE, "%s: history %d (%s, seed %s): event #%d Block %s runs the exit of the only active "
-                           "validator with an empty queue -> LeaderGroupSize 0, IsPoSActive false"
-                           % (label, k, hists[k][0].get("mode"), hists[k][0].get("seed"), off, ev.get("n")), rp)
+                ctx.report(F4_SIGNATURE, "%s: history %d (%s, seed %s): event #%d %s %s runs the exit of the only active "
+                           "validator with an empty queue -> LeaderGroupSize 0, IsPoSActive false (on a real chain: the packer "
+                           "schedules PoS over an empty leader group, nobody can produce that block)"
+                           % (label, k, hists[k][0].get("mode"), hists[k][0].get("seed"), off, ev.get("e"), ev.get("n")), rp)
+            if k is not None and hists[k][off].get("e") == "ChainHalt":
+                ctx.cov["f4_chain_halts_observed"] = ctx.cov.get("f4_chain_halts_observed", 0) + 1
         # deviations that show only in the other property's getters: noted, validation went on with this property's
         diverged = {}
         for i, et, txt in res["other"]:
@@ -336,7 +339,14 @@ def validate_recording(ctx, prop, rec, label):
             verdict.setdefault(k, "accepted" if k not in diverged else "accepted-own-getters")
         ctx.cov["rejected_histories"] = ctx.cov.get("rejected_histories", 0) + 1
         pending = pending[idx + 1:]
-    return hists, verdict
+    sample = None
+    for k, v in sorted(verdict.items()):
+        if v in ("accepted", "accepted-own-getters", "f4"):
+            h = hists[k]
+            sample = {"mode": h[0].get("mode"), "seed": h[0].get("seed"),
+                      "first_events": [{x: y for x, y in e.items() if x != "post"} for e in h[1:7]]}
+            break
+    return sample, verdict
 
 
 def nontrivial(prop, s):
@@ -384,14 +394,12 @@ def histories(ctx, prop, plan, more_stats=()):
         recs.append((preset, label, rec))
     with ThreadPoolExecutor(max_workers=2) as pool:
         results = list(pool.map(lambda x: validate_recording(ctx, prop, x[2], x[1]), recs))
-    for (preset, label, rec), (hists, verdict) in zip(recs, results):
+    for (preset, label, rec), (sample, verdict) in zip(recs, results):
         ok = [k for k, v in verdict.items() if v in ("accepted", "accepted-own-getters", "f4")]
         accepted += len(ok)
         all_stats += [rec["stats"][k] for k in sorted(verdict)]
-        for k in ok[:1]:
-            h = hists[k]
-            ctx.sample({"preset": preset, "mode": h[0].get("mode"), "seed": h[0].get("seed"),
-                        "first_events": [{x: y for x, y in e.items() if x != "post"} for e in h[1:7]]}, limit=6)
+        if sample:
+            ctx.sample(dict(sample, preset=preset), limit=6)
     ctx.cov["traces_validated_against_impl"] += accepted
     ctx.cov["evaluations"] = len(all_stats)
     ctx.cov["distinct_nontrivial"] = sum(1 for s in all_stats if nontrivial(prop, s))
